@@ -479,16 +479,52 @@ def observe_batch(batch: List[Tuple[int, Dict[str, Any]]]) -> List[Dict[str, Any
     return out
 
 
+def raised_obs(h: int, e: BaseException) -> Dict[str, Any]:
+    """The observation of a case whose build / read-back raised INSIDE pydoctor.  An exception whose innermost frame is
+    not pydoctor's (our rendering, our read-back) is a machinery failure and is re-raised as such."""
+    import traceback
+    tb = traceback.extract_tb(e.__traceback__)
+    last = tb[-1] if tb else None
+    if isinstance(e, MachineryError) or last is None or "/pydoctor/" not in last.filename.replace(os.sep, "/"):
+        raise MachineryError(f"case {h}: {type(e).__name__}: {str(e)[:300]} raised outside pydoctor "
+                             f"({last.filename}:{last.lineno} {last.name})" if last else f"case {h}: {e!r}")
+    return {"h": h, "raised": {"type": type(e).__name__, "message": str(e)[:200],
+                               "where": f"{'/'.join(last.filename.split('/')[-2:])}:{last.lineno} {last.name}"}}
+
+
+def observe_safe(batch: List[Tuple[int, Dict[str, Any]]]) -> List[Dict[str, Any]]:
+    """observe_batch made total: when the build of a batch raises inside pydoctor (say a RecursionError in the second pass
+    of base resolution) every case of the batch is observed again ALONE, in a System of its own, and a case for which
+    pydoctor still raises is observed as {"raised": ..} - judged against the reference like any other observation."""
+    try:
+        return observe_batch(batch)
+    except MachineryError:
+        raise
+    except Exception as e:
+        if len(batch) == 1:
+            return [raised_obs(batch[0][0], e)]
+        raised_obs(batch[0][0], e)            # not pydoctor's: machinery
+    out = []
+    for one in batch:
+        try:
+            out += observe_batch([one])
+        except MachineryError:
+            raise
+        except Exception as e:
+            out.append(raised_obs(one[0], e))
+    return out
+
+
 def observe_all(cases: List[Dict[str, Any]], per_batch: int) -> List[Dict[str, Any]]:
     numbered = list(enumerate(cases))
     batches = [list(b) for b in chunks(numbered, per_batch)]
     from pydoctor import model  # noqa: F401  (imported before forking)
     from pydoctor.templatewriter import pages  # noqa: F401
     if len(batches) <= 1:
-        res = [observe_batch(b) for b in batches]
+        res = [observe_safe(b) for b in batches]
     else:
         with mp.get_context("fork").Pool(min(len(batches), max(1, (os.cpu_count() or 4) - 2))) as pool:
-            res = pool.map(observe_batch, batches, chunksize=1)
+            res = pool.map(observe_safe, batches, chunksize=1)
     return [o for r in res for o in r]
 
 
@@ -678,7 +714,43 @@ def evaluate_names(rec: Dict[str, Any], obs: Dict[str, Any]) -> Tuple[List[Tuple
     return failed, drift
 
 
+def evaluate_raised(rec: Dict[str, Any], obs: Dict[str, Any]) -> List[Tuple[str, int, Any, Any]]:
+    """pydoctor raised on this case, alone in its System.  Wherever the reference has an answer there is nothing to compare
+    it with: a class Python accepts has no linearisation (MroIsC3), a class Python rejects is not reported / documented
+    (InconsistentReported), a class derived from a rejected one is not documented (StillDocumented).  Only a case all of
+    whose classes are on or above a cycle (not a Python program) is left to conformance."""
+    what = f"pydoctor raised {obs['raised']['type']} at {obs['raised']['where']}"
+    failed: List[Tuple[str, int, Any, Any]] = []
+    for c in range(1, rec["n"] + 1):
+        ref = rec["c3"][c - 1]
+        if ref == CYCLIC:
+            continue
+        if ref != BAD:
+            failed.append(("MroIsC3", c, ref, what))
+        elif rec["own"][c - 1]:
+            failed.append(("InconsistentReported", c, "warning of section 'mro' at the class, class documented", what))
+        else:
+            failed.append(("StillDocumented", c, "class with its members", what))
+    order = {"MroIsC3": 0, "InconsistentReported": 1, "StillDocumented": 2}
+    return sorted(failed, key=lambda f: order[f[0]])
+
+
 def judge_case(ctx: Ctx, rec: Dict[str, Any], obs: Dict[str, Any], origin: str) -> Tuple[int, int]:
+    if "raised" in obs:
+        failed = evaluate_raised(rec, obs)
+        if not failed:
+            ctx.drift_note({"origin": origin, "bases": rec["bases"], "member": rec["member"], "born": rec["born"],
+                            "diff": [{"what": "raised", "class": 0, "model": rec["mro"], "real": obs["raised"]}]})
+            return (0, 1)
+        ctx.violation({"invariant": failed[0][0], "origin": origin,
+                       "failed": [{"invariant": a, "class": b, "expected": e, "observed": o} for a, b, e, o in failed],
+                       "case": {k: rec[k] for k in ("n", "bases", "member", "born", "early", "lay") if k in rec} | {"layout": rec.get("layout"), "h": obs["h"]},
+                       "reference": {"c3": rec["c3"], "own": rec["own"], "find_ref": rec["find_ref"], "inh_ref": rec["inh_ref"], "ovr_ref": rec["ovr_ref"], "page_ref": rec["page_ref"],
+                                     "src_ref": rec["src_ref"], "doc_ref": rec["doc_ref"]},
+                       "observed": {"raised": obs["raised"]},
+                       "model": {"mro": rec.get("mro"), "warn": rec.get("warn"), "late": rec.get("late")},
+                       "key": f"{origin}:raised:{obs['raised']['type']}:{rec['bases']}:{(rec.get('lay') or {}).get('back', '')}"[:300]})
+        return (1, 0)
     failed, drift = evaluate_case(rec, obs)
     if failed:
         inv = failed[0][0]
@@ -972,7 +1044,7 @@ def run(ctx: Ctx) -> int:
         nviol += v
         ndrift += d
         per_origin[origin] = per_origin.get(origin, 0) + 1
-        second_pass += sum(1 for fl in o["first"] for x in fl if not x)
+        second_pass += sum(1 for fl in o.get("first", []) for x in fl if not x)
         if ctx.traces % 4801 == 1:
             ctx.sample({"origin": origin, "bases": rec["bases"], "member": rec["member"], "c3": rec["c3"],
                         "real_mro": o["mro"], "real_warn": o["warn"], "real_find": o["find"], "real_docsources": o["src"]})
@@ -994,6 +1066,8 @@ def run(ctx: Ctx) -> int:
     # ---- negative control: a corrupted observation must be flagged, a corrupted reference too
     nc = {"swapped_mro_flagged": False, "dropped_warning_flagged": False, "wrong_find_flagged": False}
     for rec, o in zip(all_cases, obs):
+        if "raised" in o:
+            continue
         i = next((i for i in range(rec["n"]) if rec["c3"][i] not in (BAD, CYCLIC) and len(rec["c3"][i]) >= 3), None)
         if i is not None and not nc["swapped_mro_flagged"]:
             o2 = json.loads(json.dumps(o))
@@ -1008,7 +1082,7 @@ def run(ctx: Ctx) -> int:
             break
     for rec, o in zip(members, obs[len(enum):len(enum) + len(members)]):
         i = next((i for i in range(rec["n"]) if rec["c3"][i] not in (BAD, CYCLIC) and rec["find_ref"][i] not in (0, i + 1)), None)
-        if i is not None:
+        if i is not None and "raised" not in o:
             o2 = json.loads(json.dumps(o))
             o2["find"][i] = i + 1
             nc["wrong_find_flagged"] = bool(evaluate_case(rec, o2)[0])
@@ -1041,11 +1115,13 @@ def replay(ctx: Ctx, path: str) -> int:
     ctx.register_matcher(KF_LATE, kf_early_lookup_before_base_resolved)
     w = json.load(open(path))
     case = w["case"]
+    ob = w["observed"]
+    g = lambda k, d: ob.get(k) or [d] * case["n"]          # a witness "pydoctor raised" carries no observed fields
     rec = {"n": case["n"], "bases": case["bases"], "member": case["member"], "born": case["born"], **w["reference"],
            # model fields are irrelevant for the verdict
-           "mro": w["observed"]["mro"], "warn": w["observed"]["warn"], "find_pd": w["observed"]["find"],
-           "src_pd": w["observed"]["src"], "doc_pd": w["observed"]["doc"], "inh_pd": w["observed"]["inherited"], "page_pd": w["observed"].get("page", []),
-           "ovr_pd": w["observed"]["overrides"], "early_pd": w["observed"].get("early", [])}
+           "mro": g("mro", []), "warn": g("warn", "none"), "find_pd": g("find", 0),
+           "src_pd": g("src", []), "doc_pd": g("doc", 0), "inh_pd": g("inherited", []), "page_pd": g("page", []),
+           "ovr_pd": g("overrides", 0), "early_pd": g("early", 0)}
     if case.get("early"):
         rec["early"] = case["early"]
     if case.get("lay"):
@@ -1057,7 +1133,7 @@ def replay(ctx: Ctx, path: str) -> int:
         rec[k] = (w.get("model") or {}).get(k) or [0] * case["n"]
     if case.get("layout"):
         rec["layout"] = case["layout"]
-    obs = observe_batch([(case["h"], rec)])[0]
+    obs = observe_safe([(case["h"], rec)])[0]
     n0 = len(ctx.violations)
     judge_case(ctx, rec, obs, w.get("origin", "replay"))
     bad = len(ctx.violations) > n0
